@@ -1510,6 +1510,20 @@ func (d *drv) step() {
 				d.writeSome()
 				return
 			}
+			if d.mode == "c16" && d.rng.Intn(3) == 0 {
+				// reads below the latest sequence (snapshots) probe other blocks and filter partitions
+				if h, sn := d.anySnap(); sn != nil && d.rng.Intn(3) != 0 {
+					for i := 0; i < 4; i++ {
+						d.doSnapRead(h, sn, d.rng.Intn(n))
+					}
+					if d.rng.Intn(5) == 0 {
+						d.doSnapRel(h, sn)
+					}
+				} else if len(d.snaps) < 4 {
+					d.doSnap()
+				}
+				return
+			}
 			if d.mode == "c20" && d.rng.Intn(3) == 0 {
 				// values returned by Transaction.Get are private copies too
 				d.doTxOpen()
